@@ -434,8 +434,9 @@ func checkC11(c *Ctx) {
 				} else {
 					same := len(sets) == 1
 					sig := "label-rule"
-					if dup {
-						// the code compares sorted lists (multisets): finding F14
+					if dup && same && !ok {
+						// the code compares sorted lists (multisets), so the same SET spelled with a repeated label is
+						// refused (fails safe): finding F14 — and only that direction is the known finding
 						sig = "labels-duplicate-within-recipient"
 					}
 					c.Oracle("encrypt-iff-same-label-sets", ok == same, sig, in, fmt.Sprintf("label sets equal: %v, Encrypt succeeded: %v", same, ok))
@@ -492,6 +493,12 @@ func checkC11(c *Ctx) {
 			"-> error recipient 0\nYm9vbQ\n-> recipient-stanza 0 t a\nQUJD\n-> done\n\n",
 			"-> recipient-stanza 0 t a\nQUJD\n-> error internal\nYm9vbQ\n-> done\n\n",
 			"-> error internal\nYm9vbQ\n",
+			// the plugin dies: end of output after a stanza, after labels, in the middle of a stanza, before anything
+			"-> recipient-stanza 0 t a\nQUJD\n",
+			"-> labels postquantum\n\n-> recipient-stanza 0 t a\nQUJD\n",
+			"-> recipient-stanza 0 t a\nQUJD\n-> labels postquantum\n",
+			"-> recipient-stanza 0 t a\nQU",
+			"",
 		} {
 			for _, pos := range []int{0, 1} {
 				r, err := plugin.NewRecipient(plugin.EncodeRecipient("verif", []byte("data")), uiCfg{"ok", "ok", "yes"}.client())
